@@ -372,30 +372,32 @@ func VerifH_C03_MemMergeGroups() {
 		models = append(models, models[len(models)-1].apply(o))
 		rt.Assert(s.prepareSegment(o.seg(), o.ids(), map[string][]byte{"seq": {o.seq}}, nil) == nil, "batch accepted")
 	}
-	for b := 0; b < 4; b++ {
+	// three or four in-memory segments: two full flush groups, or one group and a lone left-over
+	nseg := rt.Choice("segments", 2) + 3
+	for b := 0; b < nseg; b++ {
 		put(verifOps{seq: byte(b + 1), upsert: []byte{'a' + byte(b)}})
 	}
 	s.rootLock.Lock()
 	our := s.root
 	our.AddRef()
 	s.rootLock.Unlock()
-	rt.Assert(len(our.segment) == 4, "four in-memory segments")
+	rt.Assert(len(our.segment) == nseg, "all batches are in-memory segments")
 	during := rt.Choice("batch_during_merge", 2) == 1
 	verifMergeHook = func() {
 		verifMergeHook = nil
 		if during {
-			put(verifBatchOps(4, nIDs))
+			put(verifBatchOps(nseg, nIDs))
 		}
 	}
 	defer func() { verifMergeHook = nil }()
 	rt.Assert(s.persistSnapshot(our, s.persisterOptions) == nil, "persist round")
 	_ = our.DecRef()
 	live, seq, s2 := verifRecover(dir)
-	rt.Assert(verifSame(live, seq, models[4]), "after the round the directory holds exactly the batches of the persisted snapshot")
+	rt.Assert(verifSame(live, seq, models[nseg]), "after the round the directory holds exactly the batches of the persisted snapshot")
 	_ = s2.rootBolt.Close()
 	groupGone := false
-	if len(models) > 5 {
-		m := models[5]
+	if len(models) > nseg+1 {
+		m := models[nseg+1]
 		groupGone = (!m.live['a'] && !m.live['b']) || (!m.live['c'] && !m.live['d'])
 		s.rootLock.Lock()
 		our = s.root
@@ -404,10 +406,11 @@ func VerifH_C03_MemMergeGroups() {
 		rt.Assert(s.persistSnapshot(our, s.persisterOptions) == nil, "second persist round")
 		_ = our.DecRef()
 		live, seq, s2 = verifRecover(dir)
-		rt.Assert(verifSame(live, seq, models[5]), "after the next round the later batch is there as a whole")
+		rt.Assert(verifSame(live, seq, models[nseg+1]), "after the next round the later batch is there as a whole")
 		_ = s2.rootBolt.Close()
 	}
 	close(s.closeCh)
 	s.asyncTasks.Wait()
-	rt.Cover(groupGone, "a-flush-group-was-obsoleted-during-the-merge")
+	rt.Cover(rt.And(groupGone, nseg == 4), "a-flush-group-was-obsoleted-during-the-merge")
+	rt.Cover(nseg == 3, "lone-left-over-segment")
 }
